@@ -15,6 +15,11 @@ pub struct Case {
 }
 
 pub fn decode(tape: &[u32]) -> Case {
+    decode_opts(tape, true)
+}
+
+/// `plain = false`: free layout (indentation, CRLF, trailing blanks and comments, optionally no final newline).
+pub fn decode_opts(tape: &[u32], plain: bool) -> Case {
     let mut t = Tape::new(tape);
     let cfg = ProgCfg { max_stmts: 25, ..ProgCfg::default() };
     let mut faults = vec![];
@@ -32,7 +37,7 @@ pub fn decode(tape: &[u32]) -> Case {
         1 => (gen_soup(&mut t, &cfg), "soup"),
         _ => (gen_wellformed(&mut t, &cfg).0, "wellformed"),
     };
-    let rendered = render(&prog, &mut t, RenderOpts { plain: true, wild_comments: false });
+    let rendered = render(&prog, &mut t, RenderOpts { plain, wild_comments: false });
     Case { prog, faults, rendered, mode }
 }
 
